@@ -68,20 +68,27 @@ def prove(plan, repo, tier):
         out["lemmas"] += len(reg.lemmas)
     return out
 
-def counter_model_for(ob, B=(2, 3)):
-    """small-scope instantiation of the same VC; returns (bound, reified entry) or None"""
+def counter_models_for(failed, cap=4):
+    """small-scope instantiation of the same VCs for (at most `cap`) failed obligations, one VC generation per function and bound"""
     from vf.driver import counter_models
     from vf.reify import reify_entry
-    for b in B:
-        try:
-            cms = counter_models(ob["_reg"], ob["_quals"], {ob["name"]}, B=b, timeout_ms=20000)
-        except Exception as e:
-            return dict(error=f"{type(e).__name__}: {e}")
-        cm = cms.get(ob["name"])
-        if cm and cm[0] == "sat":
-            try: return dict(bound=b, entry=reify_entry(cm[2], cm[1]))
-            except Exception as e: return dict(bound=b, entry=None, error=f"reify: {e}")
-    return None
+    out = {}; todo = failed[:cap]; groups = {}
+    for o in todo: groups.setdefault(id(o["_reg"]), []).append(o)
+    for obs in groups.values():
+        names = {o["name"] for o in obs}
+        for b in (2, 3):
+            if not names: break
+            try: cms = counter_models(obs[0]["_reg"], obs[0]["_quals"], set(names), B=b, timeout_ms=8000)
+            except Exception as e:
+                for n in names: out[n] = dict(error=f"{type(e).__name__}: {e}")
+                break
+            for n in list(names):
+                cm = cms.get(n)
+                if cm and cm[0] == "sat":
+                    try: out[n] = dict(bound=b, entry=reify_entry(cm[2], cm[1]))
+                    except Exception as e: out[n] = dict(bound=b, entry=None, error=f"reify: {e}")
+                    names.discard(n)
+    return out
 
 # ----------------------------------------------------------------------------------------------- bounded part
 def start_bounded(plan, repo, tier, seed):
@@ -139,11 +146,13 @@ def main():
         f = match_open(known, pid, "bounded", v.get("clause", ""))
         if f: known_lines.append(f"KNOWN-FINDING: property={pid} {f['id']} {f['what']} [bounded clause {v.get('clause')}; e.g. {json.dumps(jsonable(v.get('case')))[:160]}]")
         else: new_b.append(v)
+    new_failed = [o for o in failed if not match_open(known, pid, "obligation", o["name"])]
+    cms = counter_models_for(new_failed) if new_failed else {}
     for o in failed:
         f = match_open(known, pid, "obligation", o["name"])
         if f:
             known_lines.append(f"KNOWN-FINDING: property={pid} {f['id']} {f['what']} [obligation {o['name']} {o['status']}]"); continue
-        cm = counter_model_for(o)
+        cm = cms.get(o["name"])
         fn = o["name"].split(":")[0]
         conc = next((v for v in new_b if v.get("function") in (None, fn)), None) or (new_b[0] if new_b else None)
         h = hashlib.sha256(o["name"].encode()).hexdigest()[:10]; path = os.path.join(rdir, f"obligation-{h}.json")
